@@ -91,7 +91,10 @@ class CustomOperationGenerator:
         if not self._class_def.body:
             self._class_def.body.append(ast.Pass())
 
+        # imports of custom scalars are known only now: add them to the module too
+        known_imports = len(self.argument_generator.imports)
         self.argument_generator.add_custom_scalar_imports()
+        self._imports.extend(self.argument_generator.imports[known_imports:])
 
         self._class_def.lineno = len(self._imports) + 3
 
